@@ -29,6 +29,7 @@ inductive Node where
   | sum (v : Nat) (c : Ref)
   | prod (v : Nat) (c : Ref)
   | cat (v : Nat) (parts : List (Nat × Nat))
+  | scat (i k : Nat) (t : List Nat) (c : Ref)
   deriving Inhabited
 
 def dflt : Expr := .acc 0 []
@@ -39,13 +40,14 @@ def refExpr (t : List Expr) : Ref → Expr
       | some e => e
       | none => dflt            -- out of range: excluded by `RefsOK` (checked by the driver)
 
-def nodeExpr (t : List Expr) : Node → Expr
+def nodeExpr (t' : List Expr) : Node → Expr
   | .subs id σ => .acc id σ
-  | .add l r => .add (refExpr t l) (refExpr t r)
-  | .mul l r => .mul (refExpr t l) (refExpr t r)
-  | .sum v c => .sum v (refExpr t c)
-  | .prod v c => .prod v (refExpr t c)
+  | .add l r => .add (refExpr t' l) (refExpr t' r)
+  | .mul l r => .mul (refExpr t' l) (refExpr t' r)
+  | .sum v c => .sum v (refExpr t' c)
+  | .prod v c => .prod v (refExpr t' c)
   | .cat v parts => .cat v parts
+  | .scat i k t c => .scat i k t (refExpr t' c)
 
 /-- the unfolding of every node, newest first (aligned with the DAG) -/
 def table : List Node → List Expr
@@ -71,6 +73,7 @@ def refsOK (len : Nat) : Node → Bool
   | .sum _ c => refOK len c
   | .prod _ c => refOK len c
   | .cat _ _ => true
+  | .scat _ _ _ c => refOK len c
 
 section
 variable {R : Type} (o : Ops R) (sz : Nat → Nat) (L : Leaves R) (n : Nat) (F : Mask)
@@ -99,7 +102,10 @@ def entry (older : List Node) (nd : Node) : Entry (NT R) :=
        [(refKey len c, fun a => agg o sz n F (fvMask L ec)
           (divNT o (mulNT o a (valNT o sz L (.prod v ec))) (valNT o sz L ec)))]
    | .cat v parts =>
-       (catChildren o sz L n F v (fvMask L (.cat v parts)) parts 0).map (fun c => (leafKey c.1, c.2))⟩
+       (catChildren o sz L n F v (fvMask L (.cat v parts)) parts 0).map (fun c => (leafKey c.1, c.2))
+   | .scat i k tb c =>
+       let ec := refExpr t c
+       [(refKey len c, fun a => agg o sz n F (fvMask L ec) (scatMsg i k tb a))]⟩
 
 /-- the tape of the DAG, newest entry first -/
 def entries : List Node → List (Entry (NT R))
@@ -137,6 +143,7 @@ def ofTable (tbl : List Expr) : List Node :=
     | some (.sum v e) => Node.sum v (toRef tbl i e)
     | some (.prod v e) => Node.prod v (toRef tbl i e)
     | some (.cat v parts) => Node.cat v parts
+    | some (.scat a b tb e) => Node.scat a b tb (toRef tbl i e)
     | none => Node.cat 0 []).reverse
 
 def ofExpr (e : Expr) : List Node := ofTable (nodes e [])
